@@ -116,7 +116,10 @@ class FakeSocket:
     def makefile(self, *a, **k):
         return self.rx
 
-    def recv(self, n, *a):
+    def recv(self, n, flags=0):
+        import socket as _s
+        if flags & _s.MSG_PEEK:
+            return bytes(self.rx.buf[self.rx.pos:self.rx.pos + n])
         return self.rx.read(n)
 
     def recv_into(self, b, *a):
